@@ -1,0 +1,17 @@
+//go:build verif
+
+package hybridre2
+
+// Verification hooks (build tag verif only).
+
+// VerifSetThreshold replaces the read-once threshold, as the package's own tests do.
+func VerifSetThreshold(n int64) { threshold = func() int64 { return n } }
+
+// VerifThreshold returns threshold().
+func VerifThreshold() int64 { return threshold() }
+
+// VerifUseRE2 is useRE2.
+func VerifUseRE2(inputLen int) bool { return useRE2(inputLen) }
+
+// VerifHasRE2 reports whether Compile built the go-re2 variant.
+func VerifHasRE2(re *Regexp) bool { return re.re2 != nil }
